@@ -96,6 +96,11 @@ pub trait Extra: BitVector + Raw {
     fn hash_tokens(&self) -> Vec<u128>;
     fn iter_ref(&self) -> bva::BitIterator<'_, Self>;
     fn fmt_(&self, which: u128, spec: [u128; 6]) -> Option<String>;
+    // by-value conversions (the by-reference ones are generic, see pair_generic)
+    fn conv_from_dyn(s: Bvd) -> Res;
+    fn conv_from_auto(s: Bv) -> Res;
+    fn conv_into_dyn(self) -> Res;
+    fn conv_into_auto(self) -> Res;
 }
 
 /// A Hasher recording the calls it receives as (bits, value) pairs.
@@ -324,6 +329,18 @@ macro_rules! extra_fixed {
                 }}}
                 match (j, us) { (8, _) => go!(u8), (16, _) => go!(u16), (32, _) => go!(u32), (64, 0) => go!(u64), (128, _) => go!(u128), _ => go!(usize) }
             }
+            fn conv_from_dyn(s: Bvd) -> Res {
+                match Self::try_from(s) { Ok(v) => v1(&v), Err(e) => e.code() }
+            }
+            fn conv_from_auto(s: Bv) -> Res {
+                match Self::try_from(s) { Ok(v) => v1(&v), Err(e) => e.code() }
+            }
+            fn conv_into_dyn(self) -> Res {
+                v1(&Bvd::from(self))
+            }
+            fn conv_into_auto(self) -> Res {
+                v1(&Bv::from(self))
+            }
             extra_common!();
         }
     };
@@ -343,6 +360,9 @@ extra_fixed!(u128, 1);
 extra_fixed!(u128, 2);
 extra_fixed!(usize, 1);
 extra_fixed!(usize, 2);
+extra_fixed!(u128, 3);
+extra_fixed!(u64, 5);
+extra_fixed!(u16, 4);
 
 macro_rules! extra_dyn {
     ($ty:ty) => {
@@ -373,6 +393,18 @@ macro_rules! extra_dyn {
             }
             fn shrink_(&mut self) {
                 self.shrink_to_fit()
+            }
+            fn conv_from_dyn(s: Bvd) -> Res {
+                v1(&<$ty>::from(s))
+            }
+            fn conv_from_auto(s: Bv) -> Res {
+                v1(&<$ty>::from(s))
+            }
+            fn conv_into_dyn(self) -> Res {
+                v1(&Bvd::from(self))
+            }
+            fn conv_into_auto(self) -> Res {
+                v1(&Bv::from(self))
             }
             extra_common!();
         }
@@ -784,6 +816,24 @@ macro_rules! pair_gen {
 fn exec_inner(c: &Case) -> Res {
     match c.op {
         1..=10 | 13 => with_kind!(c.kind, K => ctor::<K>(c)),
+        11 if c.form == 1 && (c.kind == KD || c.kind == KA || c.vals[0].kid == KD || c.vals[0].kid == KA) => {
+            // by-value conversions exist between the fixed types and Bvd / Bv, and between Bvd and Bv
+            let src = &c.vals[0];
+            if src.kid == KD && c.kind != KD {
+                let s = <Bvd as Raw>::from_raw(src);
+                with_kind!(c.kind, K => K::conv_from_dyn(s))
+            } else if src.kid == KA && c.kind != KA {
+                let s = <Bv as Raw>::from_raw(src);
+                with_kind!(c.kind, K => K::conv_from_auto(s))
+            } else if c.kind == KD && src.kid != KD {
+                with_kind!(src.kid, S => S::from_raw(src).conv_into_dyn())
+            } else if c.kind == KA && src.kid != KA {
+                with_kind!(src.kid, S => S::from_raw(src).conv_into_auto())
+            } else {
+                let cc = Case { form: 0, ..c.clone() };
+                exec_inner(&cc)
+            }
+        }
         11 => {
             let ks = c.vals[0].kid;
             // conversion target first: A = target, B = source
